@@ -356,6 +356,25 @@ def start_rechecks_after_join(ctx: Ctx, rep: Report, rid: str):
               "stop()/wait() joins only the newest", witness=describe_path(pth or bad) if (pth or bad) else None)
 
 
+def unchanged_walk_facts(facts, chg_name) -> bool:
+    """the facts say 'neither the hash nor the path of the event differs from the state': through the explaining local, or tested in place"""
+    if chg_name is not None and fact_in(facts, chg_name, False):
+        return True
+
+    def eq(field):
+        for (t, p) in facts:
+            try:
+                e = ast.parse(t, mode="eval").body
+            except SyntaxError:
+                continue
+            if p and isinstance(e, ast.Compare) and len(e.ops) == 1 and isinstance(e.ops[0], ast.Eq):
+                sides = [ast.unparse(e.left), ast.unparse(e.comparators[0])]
+                if any(s_ == "event.%s" % field for s_ in sides) and any(s_.endswith(".%s" % field) and s_ != "event.%s" % field for s_ in sides):
+                    return True
+        return False
+    return eq("hash") and eq("path")
+
+
 def walk_dedupe_is_exact(ctx: Ctx, rep: Report, rid: str):
     """_process_event: a walk event is dropped as 'nothing new' only when hash AND path are EXACTLY equal to what the state holds (`!=` / `==` on the
     raw values); a comparison modulo case / separators, or of the hash alone, would drop a rename found by a walk."""
@@ -375,6 +394,12 @@ def walk_dedupe_is_exact(ctx: Ctx, rep: Report, rid: str):
     if len(cands) != 1:
         raise AnalysisError("_process_event: the comparison of a walk event with the known state was not found (%d candidates)" % len(cands))
     n, e = cands[0]
+    # the comparison may be one conjunct of a merged test (`if already and not (...)`): read that conjunct
+    while isinstance(e, ast.BoolOp) and isinstance(e.op, ast.And):
+        with_hash = [v for v in e.values if any(isinstance(x, ast.Attribute) and x.attr == "hash" for x in ast.walk(v))]
+        if len(with_hash) != 1:
+            break
+        e = with_hash[0]
     known = None
     for x in ast.walk(e):
         if isinstance(x, ast.Attribute) and x.attr == "hash" and not (isinstance(x.value, ast.Name) and x.value.id == ev):
